@@ -35,8 +35,22 @@ FLAGS = [
 
 # {{{ reference rules on specs
 
+def base_view(s):
+    """A user-class node seen as its built-in base class (first fields), else *s* itself."""
+    t = s[0]
+    if t.startswith("U:vf.usercls_gen."):
+        import vf.usercls_gen as u
+        info = u.CLASSES[t.rsplit(".", 1)[1]]
+        nbase = {"Expression": 0, "Variable": 1, "Sum": 1, "CommonSubexpression": 3}[info["base"]]
+        if info["base"] == "Expression":
+            return ("Wildcard",)            # no children known to the stock traversals
+        return (info["base"], *s[1:1 + nbase])
+    return s
+
+
 def expr_children(s):
     """Child expression occurrences of a node, in traversal order."""
+    s = base_view(s)
     t = s[0]
     if t in ("int", "float", "bool", "complex", "str", "none", "type", "Variable", "NaN",
              "Wildcard", "DotWildcard", "StarWildcard", "FunctionSymbol"):
@@ -63,7 +77,8 @@ def expr_children(s):
         return list(s[1:])
     if t == "array":
         return list(s[2:])
-    if len(s) == 2 and s[1][0] == "tuple":        # n-ary
+    if t in ("Sum", "Product", "BitwiseOr", "BitwiseXor", "BitwiseAnd", "LogicalOr", "LogicalAnd",
+             "Min", "Max"):
         return list(s[1][1:])
     return [c for c in s[1:] if isinstance(c, tuple)]
 
